@@ -288,6 +288,7 @@ func enumC17(c *lib.Ctx, yield func(c17Case) bool) {
 			simx.MemOp{Write: true, Addr: l + 8, Size: 4},
 			simx.MemOp{Write: true, Addr: l, Size: simx.LineSize, Mask: []bool{}},
 			simx.MemOp{Addr: l, Size: simx.LineSize},
+			simx.MemOp{Addr: l, Size: 4}, // a small read can be outstanding while a write to other bytes of the line coalesces
 		)
 	}
 	var cfgs []simx.ChainCfg
@@ -318,7 +319,7 @@ func init() {
 	lib.Register(&lib.Check{
 		ID:    "C17",
 		Level: "exploration",
-		Rule: "exhaustive small-scope simulation with fault-point style cuts: write-back cache hierarchies (one and two levels, 2 sets x 2 ways, 2 geometry/latency settings, serial and eager issue) over ideal memory x every script of k (quick 2, thorough 3) operations over {write line, write 4 B, masked line write, read line} x 3 same-set lines x 6 flush filters {none, [A], [A,B], pid 1, pid 2, [A]+pid 1} x EVERY distinct event time of the uncontrolled run as the moment the control sequence starts (Drain, Flush(filter) per cache top-down, then Enable bottom-up) while traffic continues. " +
+		Rule: "exhaustive small-scope simulation with fault-point style cuts: write-back cache hierarchies (one and two levels, 2 sets x 2 ways, 2 geometry/latency settings, serial and eager issue) over ideal memory x every script of k (quick 2, thorough 3) operations over {write line, write 4 B, masked line write, read line, read 4 B} x 3 same-set lines x 6 flush filters {none, [A], [A,B], pid 1, pid 2, [A]+pid 1} x EVERY distinct event time of the uncontrolled run as the moment the control sequence starts (Drain, Flush(filter) per cache top-down, then Enable bottom-up) while traffic continues. " +
 			"Oracle: every control step acknowledged with success; per cache, directory before (at drain ack) vs after (at flush ack): every line still valid, matching dirty lines clean, non-matching dirty lines still dirty; after the last flush the backing bytes of every covered line equal the most recent acknowledged write (or the single in-flight write to that byte); the run then completes and satisfies the C16 flat-memory oracle. A case = (assembly, script, filter); cut_points_explored counts the runs.",
 		Sharded:     true,
 		MinOutcomes: 6,
